@@ -142,7 +142,7 @@ func BuildTrip(t Trip, p pres) *gtfs.Trip {
 	out := &gtfs.Trip{ID: gtfs.TripID{ID: str(t.ID), RouteID: str(t.Route), DirectionID: gtfs.DirectionID(t.Dir),
 		HasStartDate: t.HasSD, HasStartTime: t.HasST, StartTime: time.Duration(t.St) * time.Second,
 		ScheduleRelationship: gtfsrt.TripDescriptor_ScheduleRelationship(t.Sr)}, IsEntityInMessage: p.inMsg}
-	if t.HasSD {
+	if t.Sd != -1 { // -1 stands for time.Time{}; the flag and the value are independent fields
 		out.ID.StartDate = tm(t.Sd, p.zone)
 	}
 	for _, s := range t.Stus {
@@ -158,7 +158,7 @@ func BuildTrip(t Trip, p pres) *gtfs.Trip {
 }
 
 var f32 = []float32{0, 1.5}
-var f64 = []float64{0, 2.5}
+var f64 = []float64{0, 2.5, 20000000, 20000001}
 
 func BuildVehicle(v Vehicle, p pres) *gtfs.Vehicle {
 	out := &gtfs.Vehicle{CurrentStopSequence: u32(v.Css), StopID: optStr(v.Stop), CongestionLevel: gtfs.CongestionLevel(v.Cong),
